@@ -364,7 +364,13 @@ type c04history struct {
 func (w *c04world) must(_ any, err error) {}
 
 // accountHistory runs n random operations of two devices of one account on their account group.
-func (w *c04world) accountHistory(rng *rand.Rand, n int) *c04history {
+func (w *c04world) accountHistory(rng *rand.Rand, n int) *c04history { return w.accountHistoryMode(rng, n, false) }
+
+// focused: the two devices write only request events (with and without metadata / seed), discards,
+// blocks and unblocks about ONE contact, and synchronise often: several metadata-carrying events about
+// the same subject, concurrent ones included, whose back-filling must not depend on what was indexed
+// before
+func (w *c04world) accountHistoryMode(rng *rand.Rand, n int, focused bool) *c04history {
 	a := w.node.newAccount()
 	b := w.node.newDevice(a)
 	g := a.accountGroup()
@@ -397,18 +403,67 @@ func (w *c04world) accountHistory(rng *rand.Rand, n int) *c04history {
 		groupPKs = append(groupPKs, pk)
 	}
 	salt := 0
+	// focused histories start with a script: device 0 records a request with metadata, device 1 learns it
+	// and writes a newer request with other metadata while device 0, not knowing, writes unrelated
+	// entries and then a request WITHOUT metadata; device 1's entries reach device 0 late and sort below
+	// device 0's newest ones
+	var script []int
+	if focused {
+		switch rng.Intn(3) {
+		case 0: // received(md) | sync 0->1 | 1: discard, received(md) | 0: discard, enable, reset, received(no md)
+			script = []int{100, 900, 1105, 1100, 105, 109, 111, 101}
+		case 1: // enqueue(md) | sync 0->1 | 1: enqueue(md) | 0: enable, enqueue(no md)
+			script = []int{120, 900, 1120, 109, 111, 121}
+		default: // received(md) | sync | 1: block, unblock, received(md) | 0: block, unblock, reset, received(no md)
+			script = []int{100, 900, 1107, 1108, 1100, 107, 108, 111, 101}
+		}
+		n += len(script)
+	}
 	for i := 0; i < n; i++ {
 		d := h.devs[rng.Intn(2)]
 		c := contacts[rng.Intn(2)]
+		k := rng.Intn(16)
+		forceMD := -1 // -1 random, 0 without metadata, 1 with
+		if i < len(script) {
+			// code: device*1000 + op; 900 = synchronise device 0 -> 1
+			code := script[i]
+			d = h.devs[code/1000%2]
+			switch code % 1000 {
+			case 900:
+				k, d = 15, h.devs[0]
+			case 100:
+				k, forceMD = 3, 1
+			case 101:
+				k, forceMD = 3, 0
+			case 120:
+				k, forceMD = 0, 1
+			case 121:
+				k, forceMD = 0, 0
+			default:
+				k = code % 100
+			}
+		}
+		if focused {
+			c = contacts[0]
+			if i >= len(script) {
+				k = []int{0, 1, 0, 3, 4, 5, 7, 8, 15, 15}[rng.Intn(10)]
+			}
+		}
 		ctx := w.ctx
 		var err error
 		var name string
 		salt++
-		switch k := rng.Intn(16); k {
+		switch k {
 		case 0, 1:
 			sc := &protocoltypes.ShareableContact{Pk: c.sc.Pk, PublicRendezvousSeed: c.sc.PublicRendezvousSeed}
-			if rng.Intn(3) != 0 {
+			if (forceMD == 1) || (forceMD == -1 && rng.Intn(3) != 0 && !(focused && rng.Intn(2) == 0)) {
 				sc.Metadata = []byte(fmt.Sprintf("meta-%d", salt))
+			}
+			if focused && forceMD == -1 && rng.Intn(3) == 0 {
+				// another rendezvous seed for the same contact (it reset its reference)
+				sd := make([]byte, 32)
+				crand.Read(sd)
+				sc.PublicRendezvousSeed = sd
 			}
 			var own []byte
 			if rng.Intn(2) == 0 {
@@ -421,10 +476,10 @@ func (w *c04world) accountHistory(rng *rand.Rand, n int) *c04history {
 			_, err = d.ms.ContactRequestOutgoingSent(ctx, c.pk)
 		case 3, 4:
 			sc := &protocoltypes.ShareableContact{Pk: c.sc.Pk, PublicRendezvousSeed: c.sc.PublicRendezvousSeed}
-			if rng.Intn(3) != 0 {
+			if forceMD == 1 || (forceMD == -1 && rng.Intn(3) != 0) {
 				sc.Metadata = []byte(fmt.Sprintf("meta-%d", salt))
 			}
-			if rng.Intn(4) == 0 {
+			if forceMD == -1 && rng.Intn(4) == 0 {
 				sc.PublicRendezvousSeed = nil
 			}
 			name = "received"
@@ -921,6 +976,27 @@ func (w *c04world) explore(out *vharness.Out, kind string, rng *rand.Rand, h *c0
 			}
 			w.runPlan(out, kind, h, like, plan, fmt.Sprint("batches ", p, " split ", len(plan)), ranks, ev, q, want, reopen, wantAlias)
 		}
+		// the writer itself, once it has received everything the others wrote: it went through its own
+		// sequence of index updates (entries of the others arriving late, below its own newer ones) and
+		// must end in the state of the replica that got everything at once
+		if h.contact {
+			w.deliverIndexed(like.ms, heads...)
+		} else {
+			vDeliver(w.ctx, w.t, like.ms, heads...)
+		}
+		like.snap()
+		obs := w.observe(like.ms, q)
+		ok, note := true, ""
+		if obs != want {
+			ok, note = false, fmt.Sprintf("history %v: writer %d, after receiving the entries of the others, reports a different state than a replica that got all entries in one batch: %s", h.desc, like.own, c04firstDiff(want, obs))
+		}
+		out.Emit(vharness.Case{
+			Kind: kind + "-writer-converged",
+			Coq:  fmt.Sprintf("CIdx %d %s %s %s %s %s %s", like.own, w.logsCoq(like.snaps, ranks, ev), vharness.Ns(q.pks), vharness.Ns(q.groups), vharness.Ns(q.devs), vharness.Ns(q.members), obs),
+			Key:  fmt.Sprintf("%v|writer %d converged", h.desc, like.own), Nontrivial: len(like.snaps) >= 3, OracleOK: ok, Note: note,
+			Sig:    "replicas holding the same entries report different group state",
+			Replay: map[string]any{"history": h.desc, "writer": like.own},
+		})
 	}
 	for _, d := range h.devs {
 		d.ms.Close()
@@ -945,7 +1021,9 @@ func TestVerifC04(t *testing.T) {
 		if i%4 == 0 {
 			n = 2 + rng.Intn(3) // small histories: every delivery order
 		}
-		if i%5 == 1 {
+		if i%5 == 3 {
+			w.explore(out, "account-one-contact", rng, w.accountHistoryMode(rng, n+3, true), 8)
+		} else if i%5 == 1 {
 			w.explore(out, "contact", rng, w.contactHistory(rng, n+2), 3)
 		} else if i%3 == 2 {
 			w.explore(out, "multi-member", rng, w.multiHistory(rng, n+2), 3)
